@@ -144,7 +144,7 @@ def run(ctx):
     nkeys = 30 if ctx.quick else 200
     ctx.rule = ("for each hostile key (path separators, '..', absolute paths, NUL/control characters, 64 KiB, random "
                 "Unicode) and mode, a 26-operation script (writes, reads, lookups, listing, every extraction kind, "
-                "link_to, removals) runs as one traced process with TMPDIR, HOME and cwd pointing into a decoy tree; the "
+                "link_to, removals; plus symlinks to an outside directory planted inside the cache before clear) runs as one traced process with TMPDIR, HOME and cwd pointing into a decoy tree; the "
                 "monitor inspects EVERY path-taking system call made between the operation markers: successful "
                 "mutating calls must target the cache directory or the explicit destination; read-only operations "
                 "must make no mutating call at all; every path under the cache must be tmp/*, the SHA-1-derived bucket "
@@ -385,6 +385,53 @@ def run(ctx):
             ctx.violation(f"remove_fully|{mode}|parent-directory-removed",
                           "a directory above the cache directory was removed", {"steps": [[mode, x] for x in script]})
         ctx.count("lonely_index_scripts")
+        ctx.rm(base)
+    # (1c) symlinks to directories OUTSIDE the cache, planted at several depths inside it (by a user, a backup tool, an
+    # earlier version): nothing the library does - least of all clear - may follow them and touch what they point at
+    for mode in modes:
+        base = ctx.new_dir(f"planted-{mode.replace('@', '-')}")
+        cache = os.path.join(base, "the-cache")
+        precious = os.path.join(base, "precious")
+        os.makedirs(os.path.join(precious, "sub", "deeper"))
+        for rel in ("a.txt", "sub/b.bin", "sub/deeper/c"):
+            with open(os.path.join(precious, rel), "wb") as f:
+                f.write(b"outside the cache: " + rel.encode())
+        m = drv.MODES[mode][1]
+        pre = [{"op": "write", "cache": cache, "key": f"p{j}", "data": {"hex": (b"planted %d" % j).hex()}} for j in range(3)]
+        for q in pre:
+            ctx.call("sync@astd", q)
+        sri0 = ref.sri("sha256", b"planted 0")
+        a0, h0 = ref.sri_address(sri0)
+        plants = [os.path.join(cache, "link-at-root"), os.path.join(cache, "content-v2", "sha256", "zz-link"),
+                  os.path.join(cache, "content-v2", "sha256", h0[:2], "link-next-to-content"),
+                  os.path.join(cache, "index-v5", "zz-link"), os.path.join(cache, "tmp", "link-in-tmp")]
+        for pl in plants:
+            os.makedirs(os.path.dirname(pl), exist_ok=True)
+            os.symlink(precious, pl)
+        before = snapshot(precious)
+        script = [
+            {"op": "list", "mode": "sync", "cache": cache},
+            {"op": "read", "mode": m, "cache": cache, "key": "p0"},
+            {"op": "write", "mode": m, "cache": cache, "key": "p9", "data": {"hex": "6162"}},
+            {"op": "remove_hash", "mode": m, "cache": cache, "sri": sri0},
+            {"op": "remove_fully", "mode": m, "cache": cache, "key": "p1"},
+            {"op": "clear", "mode": m, "cache": cache},
+            {"op": "write", "mode": m, "cache": cache, "key": "p9", "data": {"hex": "6162"}},
+            {"op": "clear", "mode": m, "cache": cache},
+        ]
+        resps = ctx.batch("sync@" + mode.split("@")[1], script) if m == "sync" else ctx.batch(mode, script)
+        after = snapshot(precious)
+        for q, r in zip(script, resps):
+            ctx.case(distinct_key=("planted", mode, q["op"], ev.variant(r)))
+            if ev.is_panic(r):
+                ctx.count("panics_seen_elsewhere")
+        if before != after:
+            ch = sorted(k for k in set(before) | set(after) if before.get(k) != after.get(k))
+            ctx.violation(f"planted-dir-symlinks|{mode}|outside-directory-changed",
+                          f"with symlinks to an outside directory planted inside the cache, list/read/write/remove_hash/"
+                          f"remove_fully/clear changed that directory: {ch[:4]}", {"steps": [[mode, x] for x in script], "mode": mode,
+                                                                                  "planted": [os.path.relpath(x, cache) for x in plants]})
+        ctx.count("planted_symlink_scripts")
         ctx.rm(base)
     # (5) opaqueness of keys
     groups = gen.CONFUSABLE_GROUPS
